@@ -589,6 +589,40 @@ func (l *pppoeLoop) clientMAC() net.HardwareAddr {
 }
 
 func openPPPoELoop(state string, ev *env) (*pppoeLoop, error) {
+	l, err := newPPPoELoop(ev, pppoeDefaultCfg())
+	if err != nil {
+		return nil, err
+	}
+	if err := l.prime(); err != nil {
+		return nil, err
+	}
+	if state == "session-table-full" {
+		if err := l.fill(); err != nil {
+			return nil, err
+		}
+		time.Sleep(200 * time.Millisecond) // let the LCP negotiation goroutines drain
+	}
+	if c, ok := sysCache["pppoe-loop"]; ok {
+		l.sys = c
+		return l, nil
+	}
+	seeds := l.samples(rand.New(rand.NewPCG(1, 2)))
+	for _, s := range seeds {
+		l.sys = append(l.sys, systematic(s, 14)...)
+	}
+	rng := rand.New(rand.NewPCG(0xc09, 77))
+	rng.Shuffle(len(l.sys), func(i, j int) { l.sys[i], l.sys[j] = l.sys[j], l.sys[i] })
+	sysCache["pppoe-loop"] = l.sys
+	return l, nil
+}
+
+func pppoeDefaultCfg() pppoe.ServerConfig {
+	return pppoe.ServerConfig{Interface: "verif0", ACName: "verif-ac", ServiceName: "internet", ServerIP: "10.10.0.1", ClientPool: "10.10.0.0/24", PoolGateway: "10.10.0.1", PrimaryDNS: "8.8.8.8", SecondaryDNS: "8.8.4.4"}
+}
+
+// newPPPoELoop builds a server with the given configuration on an in-memory socket and starts
+// its real receive loop; no session exists yet.
+func newPPPoELoop(ev *env, cfg pppoe.ServerConfig) (*pppoeLoop, error) {
 	l := &pppoeLoop{ev: ev, in: make(chan []byte), idle: make(chan struct{}, 1), live: map[string][]uint16{}, crashed: make(chan *feedPanic, 1)}
 	sock := &pppoe.VerifC09Socket{
 		Recv: func(buf []byte) (int, error) {
@@ -620,8 +654,7 @@ func openPPPoELoop(state string, ev *env) (*pppoeLoop, error) {
 			return nil
 		},
 	}
-	srv, err := pppoe.VerifC09NewServer(pppoe.ServerConfig{Interface: "verif0", ACName: "verif-ac", ServiceName: "internet", ServerIP: "10.10.0.1", ClientPool: "10.10.0.0/24", PoolGateway: "10.10.0.1", PrimaryDNS: "8.8.8.8", SecondaryDNS: "8.8.4.4"},
-		zap.NewNop(), &net.Interface{Index: 9, Name: "verif0", HardwareAddr: srvMAC, MTU: 1500}, sock)
+	srv, err := pppoe.VerifC09NewServer(cfg, zap.NewNop(), &net.Interface{Index: 9, Name: "verif0", HardwareAddr: srvMAC, MTU: 1500}, sock)
 	if err != nil {
 		return nil, err
 	}
@@ -637,26 +670,6 @@ func openPPPoELoop(state string, ev *env) (*pppoeLoop, error) {
 	case <-time.After(5 * time.Second):
 		return nil, fmt.Errorf("receive loop did not start")
 	}
-	if err := l.prime(); err != nil {
-		return nil, err
-	}
-	if state == "session-table-full" {
-		if err := l.fill(); err != nil {
-			return nil, err
-		}
-		time.Sleep(200 * time.Millisecond) // let the LCP negotiation goroutines drain
-	}
-	if c, ok := sysCache["pppoe-loop"]; ok {
-		l.sys = c
-		return l, nil
-	}
-	seeds := l.samples(rand.New(rand.NewPCG(1, 2)))
-	for _, s := range seeds {
-		l.sys = append(l.sys, systematic(s, 14)...)
-	}
-	rng := rand.New(rand.NewPCG(0xc09, 77))
-	rng.Shuffle(len(l.sys), func(i, j int) { l.sys[i], l.sys[j] = l.sys[j], l.sys[i] })
-	sysCache["pppoe-loop"] = l.sys
 	return l, nil
 }
 
